@@ -32,6 +32,7 @@ func main() {
 		only     = flag.String("only", "", "run only harness instances whose name contains this")
 		noReplay = flag.Bool("noreplay", false, "dev: do not replay counterexamples natively")
 		selftest = flag.Bool("selftest", false, "run the translator validation only")
+		mapRange = flag.String("mapranges", "", "dev: list the repository's functions that range over a Go map in the given packages (comma separated ./patterns)")
 		params   multi
 	)
 	flag.Var(&params, "p", "dev: harness parameter k=v")
@@ -58,6 +59,16 @@ func main() {
 		os.Exit(env.ReplayFile(*replay))
 	case *selftest:
 		os.Exit(env.Selftest())
+	case *mapRange != "":
+		P, err := gosym.Load(*repo, *verif+"/harness", strings.Split(*mapRange, ","))
+		if err != nil {
+			fmt.Fprintln(os.Stderr, err)
+			os.Exit(2)
+		}
+		for _, l := range P.MapRanges() {
+			fmt.Println(l)
+		}
+		os.Exit(0)
 	case *property != "":
 		os.Exit(env.RunProperty(*property))
 	case *fn != "":
